@@ -28,7 +28,11 @@ claim('C10', 'system-call ordering by dominance on success edges + path-argument
       'Claimed for protocol, tables and taint: the save routine follows create-temp -> write_all -> fsync -> rename(temp, final) on every path to Ok and never truncates the final path (crash points are covered because the ordering is a dominance fact over every path); encoder/decoder agree on tag and width sequence for all 31 value variants and on the string framing; file-derived counts never size an allocation; decoder recursion is depth-bounded; reader primitives bounds-check; save bookkeeping only after store() succeeded. Not decided: value equality of round trips beyond shape, directory fsync.',
       _TB, 'DESIGN.md section 4 / C10')
 
+claim('C11', 'local taint to allocation sinks + arithmetic-assert discharge with interprocedural argument widths + recursion-guard analysis + gate dominance on the apply path + index/bounds rules',
+      'Partial: container-derived counts never size an allocation (29 sinks); every decode-side arithmetic site with a container-derived or fixed-width operand is discharged by width/guard or reviewed; every decode-side recursion cycle has a depth bound; apply path is decode -> validate -> metadata -> apply on success edges; container-derived indexes are length-checked on the dominating path; reader primitives bounds-check and every read goes through them. Not decided: byte-exact round trip, that validated containers are semantically safe, opcode operand width agreement (planned for the thorough tier).',
+      _TB, 'DESIGN.md section 4 / C11')
+
 _PENDING = 'check not built yet in this commit (work in progress; see DESIGN.md section 10 for the build order)'
-for _p in ['C02','C03','C04','C05','C06','C09','C11','C12','C13','C14','C16','C17','C20']:
+for _p in ['C02','C03','C04','C05','C06','C09','C12','C13','C14','C16','C17','C20']:
     na(_p, _PENDING)
 na('C15', 'formatting token-sequence preservation and idempotence are equalities between values computed by string manipulation; no shape-of-code fact is a necessary condition that a realistic breaking edit would violate (DESIGN.md section 5)')
